@@ -52,6 +52,8 @@ def effect_summary(ctx, fi):
 def run(ctx, rep):
     ix, T = ctx.ix, ctx.typer
     tv = ix.cls(TRACE_VISITOR)
+    from .common import check_zero_trip
+    check_zero_trip(ctx, rep, "C08.4", ("jaqalpaq.emulator.pygsti", "jaqalpaq.ipc"))
     rep.assume("termination and visit order of the trace walker are not decided (DESIGN section 5)")
 
     # ------------------------------------------------------------ C08.1
@@ -135,3 +137,25 @@ def run(ctx, rep):
             rep.ok("C08.3", cons, "for _ in range(loop.iterations): restore walk state; visit body", vl.loc())
         else:
             rep.violation("C08.3", cons, "the loop handler does not repeat the body loop.iterations times with the walk state restored at each iteration", vl.loc())
+
+    # ------------------------------------------------------------ C08.5
+    rep.rule("C08.5", "a loop that runs zero times skips exactly the traces that start inside it: the trace index is advanced only while the next objective has the loop's address as a prefix", floor=1)
+    if vl is not None:
+        fl = FuncFlow(ix, T, vl)
+        incs = [st for st in iter_stmts(vl.body) if isinstance(st, ast.AugAssign) and isinstance(st.target, ast.Attribute) and st.target.attr == "index"]
+        cons = construct_of(vl, "zero-trip-skip")
+        if not incs:
+            rep.undecided("C08.5", cons, "the loop handler never advances the trace index itself (zero-trip loops must be handled elsewhere; see C08.4)", vl.loc())
+        for st in incs:
+            tests = fl.control_tests(st)
+            prefix = any(
+                isinstance(c, ast.Compare) and any(isinstance(x, ast.Subscript) and isinstance(x.slice, ast.Slice) and any(isinstance(m, ast.Attribute) and m.attr == "objective" for m in ast.walk(x)) for x in [c.left] + c.comparators)
+                and any("address" in ast.unparse(x) for x in [c.left] + c.comparators)
+                for t in tests for c in ast.walk(t))
+            count_test = any(any(isinstance(m, ast.Attribute) and m.attr == "iterations" for m in ast.walk(t)) for t in tests)
+            if prefix and count_test:
+                rep.ok("C08.5", cons, "advanced under `objective[:len(address)] == address`, in the zero-count branch only", f"{vl.path}:{st.lineno}")
+            elif not count_test:
+                rep.violation("C08.5", cons, "the loop handler advances the trace index outside a test of the loop count: traces are skipped although the body runs", f"{vl.path}:{st.lineno}")
+            else:
+                rep.violation("C08.5", cons, "a zero-count loop advances the trace index without testing that the next objective lies inside the loop: traces after the loop are skipped too and get no readout", f"{vl.path}:{st.lineno}")
